@@ -21,7 +21,7 @@ func init() {
 	}
 }
 
-var c15Tokens = []string{"%w", "%v", "%d", "%s", "%5w", "%-8w", "%+w", "%[1]w", "%[2]w", "%[3]w", "%*w", "%%", "lit "}
+var c15Tokens = []string{"%w", "%v", "%d", "%s", "%5w", "%-8w", "%+w", "%[1]w", "%[2]w", "%[3]w", "%*w", "%%", "lit ", "w"}
 
 type c15Case struct {
 	Toks []int `json:"tokens"`
@@ -67,7 +67,7 @@ func (s sentinel) Format(st fmt.State, verb rune) {
 	*s.rec = append(*s.rec, fmt.Sprintf("%c%d", verb, s.i))
 }
 
-func isW(tok string) bool { return strings.HasSuffix(tok, "w") }
+func isW(tok string) bool { return strings.HasSuffix(tok, "w") && tok != "w" }
 
 func buildFormat(toks []int, asV map[int]bool, asZ int) string {
 	var b strings.Builder
